@@ -19,6 +19,7 @@ pub struct Parser {
     current: Option<(usize, Token)>,
     prev_pos: (usize, bool), // save previous token position for rollback
     is_started: bool,
+    depth: usize, // nested calls of parse_stmt / parse_if_stmt / unray_expression / type_or_none
 }
 
 impl Parser {
@@ -53,6 +54,23 @@ impl Parser {
 
     fn dec_expr_level(&mut self) {
         self.expr_level -= 1;
+    }
+
+    const MAX_NESTING: usize = 192;
+
+    /// Every cycle of the grammar passes through a statement, an if statement, a
+    /// unary expression or a type: counting how many of them are open bounds the
+    /// call stack however the input nests (expr_level does not: it is reset in
+    /// control clause headers and ignores unary operators, labels and else-if).
+    fn nested<T>(&mut self, f: fn(&mut Self) -> Result<T>) -> Result<T> {
+        self.depth += 1;
+        let result = if self.depth > Self::MAX_NESTING {
+            Err(self.else_error("too many depth"))
+        } else {
+            f(self)
+        };
+        self.depth -= 1;
+        result
     }
 
     fn unexpected<K>(&self, expect: &[K], actual: Option<(usize, Token)>) -> anyhow::Error
@@ -635,6 +653,10 @@ impl Parser {
     /// TypeLit   = ArrayType | StructType | PointerType | FunctionType | InterfaceType |
     ///             SliceType | MapType | ChannelType .
     fn type_or_none(&mut self) -> Result<Option<ast::Expression>> {
+        self.nested(Self::type_or_none_nested)
+    }
+
+    fn type_or_none_nested(&mut self) -> Result<Option<ast::Expression>> {
         match &self.current {
             Some((_, Token::Operator(Operator::Star))) => {
                 let pos = self.expect(Operator::Star)?;
@@ -1002,6 +1024,10 @@ impl Parser {
     }
 
     fn unray_expression(&mut self) -> Result<ast::Expression> {
+        self.nested(Self::unray_expression_nested)
+    }
+
+    fn unray_expression_nested(&mut self) -> Result<ast::Expression> {
         match self.current {
             Some((
                 pos,
@@ -1672,6 +1698,10 @@ impl Parser {
 
     /// parse source into golang Statement
     pub fn parse_stmt(&mut self) -> Result<ast::Statement> {
+        self.nested(Self::parse_stmt_nested)
+    }
+
+    fn parse_stmt_nested(&mut self) -> Result<ast::Statement> {
         if !self.is_started {
             self.next()?;
         }
@@ -1904,6 +1934,10 @@ impl Parser {
     /// `if _, ok := m[k]; ok { ... }`
     /// `if a > 1 {}`
     fn parse_if_stmt(&mut self) -> Result<ast::IfStmt> {
+        self.nested(Self::parse_if_stmt_nested)
+    }
+
+    fn parse_if_stmt_nested(&mut self) -> Result<ast::IfStmt> {
         let pos = self.expect(Keyword::If)?;
         let (init, cond) = self.parse_if_header()?;
         let body = self.parse_block_stmt()?;
